@@ -105,6 +105,36 @@ def checkBlock (env : Env) (cfg : Cfg) (h : Nat) (prev : Block) (prevConf conf :
     | none => []
   shape ++ fails ++ rw ++ inc
 
+/-- exact fees left over by the ordinary transactions of block `b` replayed on the live list `live`
+    (none when some input is not live) -/
+def blockFees (env : Env) (live : List Utxo) (b : Block) : Option Nat :=
+  let rec go (live : List Utxo) (txs : List Tx) (fees : Nat) : Option Nat :=
+    match txs with
+    | [] => some fees
+    | t :: rest =>
+      match applyTx live t b.ts with
+      | none => none
+      | some (live', consumed) =>
+        if t.hasReward then go live' rest fees
+        else go live' rest (fees + (sumVal env consumed b.ts - sumOut t))
+  go live b.txs 0
+
+/-- C11 clauses for a block the node has just PRODUCED on top of `conf` (all earlier blocks applied):
+    exactly one reward, paid to the validator, equal to the fees collected (plus the genesis amount in a
+    first block), no transaction twice -/
+def checkProduced (env : Env) (cfg : Cfg) (first : Bool) (conf : St) (b : Block) : List String :=
+  let rewards := b.txs.filter (·.hasReward)
+  let ids := b.txs.map (·.id)
+  (if rewards.length != 1 then [s!"C11 produced block has {rewards.length} rewards"] else []) ++
+  (if rewards.any (fun r => r.rewardRecipient != cfg.validator) then ["C11 reward not paid to the producer's address"] else []) ++
+  (if ids.eraseDups.length != ids.length then ["C11 transaction twice in a produced block"] else []) ++
+  (match blockFees env conf.live b with
+   | none => ["C11 produced block does not replay on the producer's confirmed outputs"]
+   | some fees =>
+     let want := (if first then cfg.genesis else 0) + fees
+     let got := (rewards.map (·.rewardValue)).sum
+     if want < U64 && got != want then [s!"C11 reward {got} differs from the fees collected {want}"] else [])
+
 /-- Check a whole chain (all blocks including the tip).  Returns failures and the state with all blocks
     but the last applied (what the node's derived state must equal, C07). -/
 def checkChain (env : Env) (cfg : Cfg) (blocks : List Block) : List String × Option St :=
